@@ -258,3 +258,74 @@ func ruleLALRK(c *Ctx) {
 		}
 	}
 }
+
+// PROPAGATE(unresolved): trieBuilder.resolve answers nil when the conflict cannot be decided
+// within the remaining depth. A node is decided only if *every* terminal that can follow is: a
+// nil answer of the recursive call for one terminal must make the whole node nil (return nil).
+// Skipping that terminal instead marks the conflict as resolved although one continuation has
+// no entry - the parser then reports a syntax error on a valid sentence and the conflict is not
+// reported at compile time.
+func ruleTRIEUNRESOLVED(c *Ctx) {
+	const rule = "PROPAGATE(unresolved)"
+	f := c.SSAFunc("lalr", "(*trieBuilder).resolve")
+	if f == nil {
+		c.Lost(rule, "lalr.trieBuilder.resolve", "function not found")
+		return
+	}
+	n := 0
+	for _, b := range f.Blocks {
+		for _, ins := range b.Instrs {
+			call, ok := ins.(*ssa.Call)
+			if !ok || call.Call.StaticCallee() != f {
+				continue
+			}
+			n++
+			key := fmt.Sprintf("lalr.trieBuilder.resolve:child-nil#%d", n)
+			verdict := ""
+			if call.Referrers() != nil {
+				for _, r := range *call.Referrers() {
+					bo, ok := r.(*ssa.BinOp)
+					if !ok || (bo.Op != token.EQL && bo.Op != token.NEQ) || bo.Referrers() == nil {
+						continue
+					}
+					other := bo.Y
+					if other == ssa.Value(call) {
+						other = bo.X
+					}
+					if k, ok := other.(*ssa.Const); !ok || k.Value != nil {
+						continue
+					}
+					for _, r2 := range *bo.Referrers() {
+						ifi, ok := r2.(*ssa.If)
+						if !ok {
+							continue
+						}
+						nilSucc := ifi.Block().Succs[0]
+						if bo.Op == token.NEQ {
+							nilSucc = ifi.Block().Succs[1]
+						}
+						ret, isRet := nilSucc.Instrs[len(nilSucc.Instrs)-1].(*ssa.Return)
+						if isRet && len(ret.Results) == 1 {
+							if k, ok := ret.Results[0].(*ssa.Const); ok && k.Value == nil {
+								verdict = "ok"
+								continue
+							}
+						}
+						verdict = "the nil (unresolvable) answer of the recursive call does not make resolve return nil"
+					}
+				}
+			}
+			switch verdict {
+			case "ok":
+				c.Ok(rule, key, call.Pos(), "an unresolvable continuation makes the whole node unresolved (return nil)")
+			case "":
+				c.Bad(rule, key, call.Pos(), "the result of the recursive resolve call is not tested for nil")
+			default:
+				c.Bad(rule, key, call.Pos(), "%s: the conflict counts as resolved although one continuation has no entry (valid sentences are rejected, the conflict is not reported)", verdict)
+			}
+		}
+	}
+	if n < 1 {
+		c.Lost(rule, "lalr.trieBuilder.resolve:child-nil", "no recursive call found")
+	}
+}
